@@ -89,10 +89,10 @@ Proof.
   destruct (deriveConfState (smeta_of (r_snap r)) (r_ents r) (hs_commit (r_hs r))); [|reflexivity].
   f_equal. f_equal.
   - unfold mem_first, r_first. cbn [ms_ents ms_snap]. destruct (r_ents r) as [|e l] eqn:E.
-    + fold (r_sidx r). destruct (r_sidx r =? 0) eqn:Ez; cbn [negb]; lia.
+    + unfold r_sidx. destruct (s_idx (r_snap r) =? 0) eqn:Ez; cbn [negb]; lia.
     + apply contig_first_idx in Hc. exact Hc.
   - unfold mem_last, r_last. cbn [ms_ents ms_snap]. rewrite (last_idx_of_contig _ _ Hc).
-    destruct (r_ents r) as [|e l] eqn:E; [cbn; lia|]. fold (r_sidx r).
+    destruct (r_ents r) as [|e l] eqn:E; [unfold r_sidx; cbn; lia|]. unfold r_sidx.
     change (N.of_nat (length (e :: l))) with (len (e :: l)). rewrite len_cons. lia.
   - apply filter_true. intros x Hx. exact (proj1 (forallb_forall _ _) Hb x Hx).
 Qed.
